@@ -77,6 +77,11 @@ EngineLogOk(e, head) ==
   /\ e.engine[1].m = "newPayload" /\ e.engine[1].hash = head.hash
   /\ e.engine[2].m = "fcu" /\ e.engine[2].head = head.hash /\ e.engine[2].safe = head.parent /\ e.engine[2].fin = head.parent /\ ~e.engine[2].attr
 
+EngineHeadOk(e, head) ==
+  /\ \E i \in DOMAIN e.engine : e.engine[i].m = "fcu"
+  /\ \A i \in DOMAIN e.engine : e.engine[i].m = "fcu" =>
+        (e.engine[i].head = head.hash /\ e.engine[i].safe = head.parent /\ e.engine[i].fin = head.parent /\ ~e.engine[i].attr)
+
 TraceFinalize ==
   /\ IsEvent("finalize")
   /\ LET p == PFrom(Ev.p, Ev.h, Ev.proposer)
@@ -89,6 +94,10 @@ TraceFinalize ==
      /\ Chk((B("finalize") /\ ~Ev.err) => ((checks /\ Ev.modulesOk) => Ev.msgOk), "BLOCKMSG-FAILED", << DueList(C), p >>)
      /\ Chk(B("faults") => (Ev.err = ~engOk), "FINALIZE-ERROR", << Ev.endNp, Ev.endFcu >>)
      /\ Chk((B("faults") /\ ~Ev.err /\ Ev.byz = "") => EngineLogOk(Ev, after.head), "ENGINE-LOG", after.head)
+     \* a mutated proposal that others decided (its engine log may hold late requests of refused ProcessProposal calls, so it is
+     \* not compared call by call): whatever forkchoiceUpdated says, it names the head the specification computes - the first
+     \* block message's payload if that message succeeded, the old head otherwise; never anything a later message brought
+     /\ Chk((B("faults") /\ ~Ev.err /\ Ev.byz # "") => EngineHeadOk(Ev, after.head), "ENGINE-HEAD", after.head)
      /\ pending' = IF Ev.err THEN None ELSE [none |-> FALSE, c |-> after, delivered |-> IF Ev.msgOk THEN DueOf(C.q) ELSE [k \in Kinds |-> << >>]]
   /\ UNCHANGED << C, handed, seen >>
 
